@@ -343,7 +343,7 @@ class SpecMon(Monitor):
         """Default reference only (no fold option there): nothing to resolve."""
         return
 
-    def detect(self, m, st, cid, after, replay=False):
+    def detect(self, m, st, cid, after, replay=False, nofork=False):
         """C03 detector.  request/response: skip leading empty lines, then the start line up to its
         LF, then fire at the first line that is exactly LF or CR LF (leading SP/HTAB disregarded
         only with allow_space_before_first_header_name while no header is stored).  chunk: fire at
@@ -365,7 +365,15 @@ class SpecMon(Monitor):
         no_lf = not (mask & LF)
         is_cr = not (mask & ~CR & FULL)
         no_cr = not (mask & CR)
-        if not ((is_lf or no_lf) and (is_cr or no_cr)):
+        if not ((is_lf or no_lf) and (is_cr or no_cr)) and nofork:
+            # decide with what is known, if that is enough in the detector's current state
+            st_ = d[0]
+            need_lf = st_ in ("c1", "sl", "line0", "cr0", "in")
+            need_cr = st_ in ("c0", "c1", "start", "line0", "cr0")
+            if (need_lf and not (is_lf or no_lf)) or (need_cr and not (is_cr or no_cr)):
+                self.det = ("lost",)
+                return
+        elif not ((is_lf or no_lf) and (is_cr or no_cr)):
             # the detector needs to know: split the byte into CR / LF / anything else
             parts = [("det:cr", CR), ("det:lf", LF), ("det:other", other(CR, LF))]
             raise Fork([(lab, (lambda mm: (lambda s_: s_.refine(cid, mm)))(pm)) for lab, pm in parts if mask & pm], "framing detector class")
@@ -1141,6 +1149,23 @@ class SpecMon(Monitor):
             elif self.q[0] == "U1":
                 # validated before its terminating SP was consumed: judged when the SP arrives
                 self.flags["utf8_bad"] = True
+
+    def at_loop_head(self, m, st):
+        """Bytes consumed after the reference rejected are fed to the framing detector here, when
+        the implementation's own branches have refined them, without forking."""
+        if not self.det_pending:
+            return
+        pend = self.det_pending
+        self.det_pending = ()
+        n = len(pend)
+        for i, c in enumerate(pend):
+            if self.det[0] in ("fired", "lost"):
+                break
+            t = st.token_at(n - 1 - i)
+            if t is None:
+                self.det = ("lost",)
+                break
+            self.detect(m, st, c, ("B", ((t, 1),), 0), replay=True, nofork=True)
 
     # ---- verdict at return ------------------------------------------------------------------------
     def finish(self, m, st):
